@@ -473,7 +473,11 @@ def extended_format_CALL_FUNCTION(opc, instructions) -> Tuple[str, Optional[int]
     fn_inst = instructions[i + 1]
     if fn_inst.opcode in opc.operator_set:
         start_offset = fn_inst.offset
-        if instructions[1].opname == "MAKE_FUNCTION" and opc.version_tuple >= (3, 3):
+        if (
+            arglist
+            and instructions[1].opname == "MAKE_FUNCTION"
+            and opc.version_tuple >= (3, 3)
+        ):
             arglist[0] = instructions[2].argval
 
         fn_name = fn_inst.tos_str if fn_inst.tos_str else fn_inst.argrepr
